@@ -23,8 +23,10 @@ sound; `legacy_two_parents_witness`: the unfixed loop really yields a node with 
 `route()` (repair entered or not, any machine) returns a valid routing tree (for the unrepaired case on a machine
 with faults this needs `nerNet_leaves_are_dests`: childless nodes of the `ner_net` forest are destinations).
 Nothing about the model of the fixed code is left unproved; what is validated (not proved) is the correspondence
-of the model with the Python code (stage-wise differential testing with recorded tapes and set orders) and that
-`route()` treats the nets of a call independently.
+of the model with the Python code (stage-wise differential testing with recorded tapes and set orders, for single
+nets and net by net for calls with several nets).
+Round 4: `routeNets` (the `for net in nets` loop; only the oracle tape is threaded) with `routeNets_independent`,
+`routeNets_valid`, `routeNets_only_failure`: the multi-net clause is a theorem about the model plus correspondence.
 -/
 import RigModel.Model.C03
 import RigModel.Lemmas.C03Tree
@@ -45,6 +47,7 @@ import RigModel.Lemmas.C03CopyTotal
 import RigModel.Lemmas.C03RouteTotal
 import RigModel.Lemmas.C03StrongComplete
 import RigModel.Lemmas.C03NerLeaf
+import RigModel.Lemmas.C03Nets
 import RigModel.Props.Cross03_11
 set_option linter.unusedSimpArgs false
 set_option linter.unusedVariables false
@@ -643,6 +646,74 @@ theorem routeNet_valid (m : Machine) (src : Chip) (dests : List Chip) (radius : 
 example : (match routeNet ⟨3, 3, [(2, 2)], [((1, 1), 0), ((0, 2), 3)]⟩ (0, 0) [(1, 0)] 1 [0, 0, 0, 0, 0, 0, 0] []
       [⟨1, (1, 0), 1, 2, 4⟩] false with
     | .ok r => !r.repaired && (toTree r.forest r.leaves 10 r.root).isSome
+    | .error _ => false) = true := by decide +kernel
+
+/-! ## Round 4: all nets of one `route()` call -/
+
+/-- **`routeNets_independent`.**  The model of the whole `for net in nets` loop succeeds with results `rs` exactly
+when, net by net, the body `routeNet` run on that net's OWN inputs (source chip, destination chips, radius,
+broken-link order, sink vertices) and on that net's tape (`tapes`: the tape of the call minus the draws of the
+nets before it) succeeds with the corresponding result: nothing else is carried from one net to the next - no
+tree, no lookup, no leaf. -/
+theorem routeNets_independent (m : Machine) (legacy : Bool) (nets : List NetIn) (t : Tape) (rs : List Result) :
+    routeNets m legacy nets t = .ok rs ↔
+    List.Forall₂ (fun (nt : NetIn × Tape) r =>
+      routeNet m nt.1.src nt.1.dests nt.1.radius nt.2 nt.1.order nt.1.sinks legacy = .ok r)
+      (nets.zip (tapes m nets t)) rs :=
+  L.routeNets_forall2 nets t rs
+
+/-- the driver's trace of the loop (results before the first failing net) is the loop -/
+theorem routeNetsRun_eq (m : Machine) (legacy : Bool) (nets : List NetIn) (t : Tape) :
+    routeNets m legacy nets t =
+      (match routeNetsRun m legacy nets t with
+       | (rs, none) => .ok rs
+       | (_, some e) => .error e) :=
+  L.routeNetsRun_eq nets t
+
+/-- the result `r` is a valid routing tree for net `n` (given that the net is placed on working chips) -/
+def NetValid (m : Machine) (n : NetIn) (r : Result) : Prop :=
+  chipOk m n.src = true → (∀ d, d ∈ n.dests → chipOk m d = true) →
+    r.root = n.src ∧ ∃ tr, toTree r.forest r.leaves (r.forest.length + 1) r.root = some tr ∧
+      ValidTree m n.src n.sinks tr
+
+/-- **Every net of a successful call gets a valid routing tree for ITS OWN sinks** (fixed repair loop, any
+machine): rooted at its source chip, chips distinct, live hops, leaves exactly its own sink vertices with their
+cores / endpoint routes - provided its source and destination chips are working chips. -/
+theorem routeNets_valid (m : Machine) (nets : List NetIn) (t : Tape) (rs : List Result)
+    (h : routeNets m false nets t = .ok rs) : List.Forall₂ (NetValid m) nets rs := by
+  have h1 := (routeNets_independent m false nets t rs).1 h
+  have hlen : (tapes m nets t).length = nets.length := by
+    clear h h1
+    induction nets generalizing t with
+    | nil => rfl
+    | cons n rest ih => simp [tapes, ih]
+  have h2 : List.Forall₂ (fun (nt : NetIn × Tape) (r : Result) => NetValid m nt.1 r)
+      (nets.zip (tapes m nets t)) rs :=
+    List.Forall₂.imp
+      (fun nt r hr hs hd => routeNet_valid m nt.1.src nt.1.dests nt.1.radius nt.2 nt.1.order nt.1.sinks r hs hd hr)
+      h1
+  have h3 := (List.forall₂_map_left_iff (f := Prod.fst) (R := NetValid m)).2 h2
+  rwa [List.map_fst_zip (by omega)] at h3
+
+/-- **`route_only_failure` for a call with several nets**: the call fails only with an error one of its nets
+produces, hence (nets placed on working chips) only with `MachineHasDisconnectedSubregion` or an oracle error,
+and never with the former on a strongly connected machine. -/
+theorem routeNets_only_failure (m : Machine) (nets : List NetIn) (t : Tape) (e : Err)
+    (hn : ∀ n, n ∈ nets → chipOk m n.src = true ∧ (∀ d, d ∈ n.dests → InRange m d) ∧
+      ∀ s, s ∈ n.sinks → (s.chip = n.src ∨ s.chip ∈ n.dests) ∧ chipOk m s.chip = true)
+    (h : routeNets m false nets t = .error e) :
+    (e = .tape ∨ e = .badDraw ∨ e = .badOracle ∨ e = .disconnected) ∧
+    (e = .disconnected → stronglyConnected m = false) := by
+  obtain ⟨n, t', hmem, he⟩ := L.routeNets_error nets t e h
+  obtain ⟨h1, h2, h3⟩ := hn n hmem
+  exact route_only_failure m n.src n.dests n.radius t' n.order n.sinks h1 h2 h3 e he
+
+/-- non-vacuity: two nets between the same chips with different sink vertices / cores, in one call -/
+example : (match routeNets ⟨3, 3, [], [((0, 0), 0)]⟩ false
+      [⟨(0, 0), [(1, 0)], 1, [((0, 0), (1, 0))], [⟨1, (1, 0), 1, 2, 4⟩]⟩,
+       ⟨(0, 0), [(1, 0)], 1, [((0, 0), (1, 0))], [⟨2, (1, 0), 1, 5, 6⟩]⟩]
+      [0, 0, 0, 0, 0, 0, 0, 0, 0, 0, 0, 0, 0, 0] with
+    | .ok rs => decide (rs.length = 2) && rs.all (fun r => r.repaired)
     | .error _ => false) = true := by decide +kernel
 
 end Rig.C03
